@@ -127,6 +127,18 @@ impl Property for Faults {
             spec.version = Some("1.2.3".into());
         }
         let fault = *t.pick(FAULTS);
+        if fault != "help-request" && t.chance(1, 4) {
+            // help switched off (global settings: in effect on every level): the closing hint of an error may only
+            // point at a help mechanism that still exists
+            match t.choose(3) {
+                0 => spec.settings.disable_help_flag = true,
+                1 => spec.settings.disable_help_subcommand = true,
+                _ => {
+                    spec.settings.disable_help_flag = true;
+                    spec.settings.disable_help_subcommand = true;
+                }
+            }
+        }
         // typed option for the value faults: chosen before the invocation so that its values fit
         if fault == "bad-possible-value" || fault == "bad-integer" {
             fn first_opt(c: &mut CmdSpec) -> Option<&mut ArgSpec> {
@@ -503,6 +515,9 @@ impl Property for Faults {
         if let Some(v) = exit_contract_violation(&eo) {
             return Verdict::fail("faults:exit-contract", format!("argv {:?}: {}", case.argv, v));
         }
+        if let Some(v) = help_hint_violation(&case.spec, &eo.rendered) {
+            return Verdict::fail("faults:hint-names-missing-help", format!("argv {:?}: {v}\n{}", case.argv, eo.rendered));
+        }
         let kind = e.kind();
         let allowed: &[ErrorKind] = match case.fault.as_str() {
             "unknown-long" | "unknown-short" | "unknown-cluster-member" => &[ErrorKind::UnknownArgument],
@@ -674,6 +689,42 @@ impl Property for Faults {
     }
 }
 
+/// "suggestions only ever name things that exist": the closing `For more information, try '<X>'.` line of an error
+/// must name a help mechanism of the command the error belongs to (identified by its usage line). The help settings
+/// are global: what the root says holds on every level.
+fn help_hint_violation(spec: &CmdSpec, rendered: &str) -> Option<String> {
+    let hint = rendered.lines().find_map(|l| l.trim().strip_prefix("For more information, try '").and_then(|r| r.strip_suffix("'.")))?;
+    // the level the error was raised at
+    let mut level = spec;
+    if let Some(u) = rendered.lines().find_map(|l| l.trim().strip_prefix("Usage: ")) {
+        for w in u.split_whitespace().skip(1) {
+            match level.subs.iter().find(|s| s.name == w) {
+                Some(s) => level = s,
+                None => break,
+            }
+        }
+    }
+    let user_help_flag = level.args.iter().any(|a| a.long.as_deref() == Some("help") || a.short == Some('h'));
+    match hint {
+        "--help" | "-h" => {
+            if spec.settings.disable_help_flag && !user_help_flag {
+                return Some(format!("the hint names {hint:?} although the help flag is disabled"));
+            }
+        }
+        "help" => {
+            let user_help_sub = level.subs.iter().any(|s| s.name == "help");
+            if (spec.settings.disable_help_subcommand && !user_help_sub) || level.subs.is_empty() {
+                return Some(format!(
+                    "the hint names the help subcommand although {}",
+                    if level.subs.is_empty() { "this command has no subcommands" } else { "the help subcommand is disabled" }
+                ));
+            }
+        }
+        other => return Some(format!("the hint names {other:?}, which is no help mechanism of the command")),
+    }
+    None
+}
+
 /// Injected occurrences go before the escape marker, and never between the marker and a positional occurrence that
 /// continues after it (an occurrence is only continued by `--` while it is still open).
 fn insert_limit(occs: &[Occ]) -> usize {
@@ -691,7 +742,7 @@ fn insert_limit(occs: &[Occ]) -> usize {
 pub fn check() -> Check {
     Check {
         id: "C10",
-        parts: vec![Box::new(Gen(Faults)), Box::new(Gen(NoFault))],
+        parts: vec![Box::new(Gen(Faults)), Box::new(Gen(NoFault)), Box::new(Gen(crate::hyph::HyphenLines { name: "hyphen-positional-lines" }))],
         assumptions: vec![
             "fault-free lines satisfy every requirement literally (they never rely on an exemption)".into(),
             "the expected kinds per fault were calibrated against the ErrorKind documentation and probes of the unchanged tree".into(),
